@@ -58,7 +58,58 @@ func vcdSig(on bool, label string) []byte {
 	return []byte("signature-of-" + label)
 }
 
-func vcdNodes(sch *crypto.Scheme, n int, sig bool) []*key.Node {
+// the address catalogue of Codec.tla (AddrKinds), k distinguishes the nodes of one value
+var vcdAddrKinds = []string{"host", "ipv4", "ipv6", "ipv6loop", "ipv6zone", "dot", "upper", "port0", "lead0"}
+
+func vcdAddr(kind string, k int) string {
+	switch kind {
+	case "ipv4":
+		return fmt.Sprintf("10.0.%d.%d:4444", k/200, k%200+1)
+	case "ipv6":
+		return fmt.Sprintf("[2001:db8::%x]:4444", k)
+	case "ipv6loop":
+		if k == 1 {
+			return "[::1]:80"
+		}
+		return fmt.Sprintf("[::%x]:80", k)
+	case "ipv6zone":
+		return fmt.Sprintf("[fe80::%x%%eth0]:4444", k)
+	case "dot":
+		return fmt.Sprintf("node%d.verif.test.:4444", k)
+	case "upper":
+		return fmt.Sprintf("NODE%d.VERIF.TEST:4444", k)
+	case "port0":
+		if k == 1 {
+			return "localhost:0"
+		}
+		return fmt.Sprintf("localhost%d:0", k)
+	case "lead0":
+		return fmt.Sprintf("node%d.verif.test:0080", k)
+	}
+	return fmt.Sprintf("node%d.verif.test:44%d", k, k)
+}
+
+// which kind of the catalogue the observed addresses (of nodes k = ks[i]) are; "other" if none
+func vcdAddrKindOf(addrs []string, ks []int, dflt string) string {
+	if len(addrs) == 0 {
+		return dflt
+	}
+	for _, kind := range vcdAddrKinds {
+		ok := true
+		for i, a := range addrs {
+			if a != vcdAddr(kind, ks[i]) {
+				ok = false
+				break
+			}
+		}
+		if ok {
+			return kind
+		}
+	}
+	return "other:" + addrs[0]
+}
+
+func vcdNodes(sch *crypto.Scheme, n int, sig bool, kind string) []*key.Node {
 	var out []*key.Node
 	for k := 1; k <= n; k++ {
 		label := fmt.Sprintf("N%d", k)
@@ -66,7 +117,7 @@ func vcdNodes(sch *crypto.Scheme, n int, sig bool) []*key.Node {
 			Index: uint32(2*k - 1), // not 0..n-1: an index must travel, not be re-derived from the position
 			Identity: &key.Identity{
 				Key:       vhsPoint(sch, "node:"+label),
-				Addr:      fmt.Sprintf("node%d.verif.test:44%d", k, k),
+				Addr:      vcdAddr(kind, k),
 				Signature: vcdSig(sig, label),
 				Scheme:    sch,
 			},
@@ -94,7 +145,7 @@ func vcdGroup(sch *crypto.Scheme, v map[string]any) *key.Group {
 		Period:      vcdPeriod,
 		Scheme:      sch,
 		ID:          vcdStr(v, "id"),
-		Nodes:       vcdNodes(sch, n, vcdInt(v, "sig") == 1),
+		Nodes:       vcdNodes(sch, n, vcdInt(v, "sig") == 1, vcdStr(v, "addr")),
 		GenesisTime: vcdGenesis,
 	}
 	if vcdInt(v, "catchup") == 1 {
@@ -159,6 +210,14 @@ func vcdProjectGroup(sch *crypto.Scheme, v map[string]any, orig, g *key.Group) (
 	if g.PublicKey != nil {
 		p["dist"] = 1
 	}
+	var addrs []string
+	var ks []int
+	for k, n := range g.Nodes {
+		if n.Identity != nil {
+			addrs, ks = append(addrs, n.Addr), append(ks, k+1)
+		}
+	}
+	p["addr"] = vcdAddrKindOf(addrs, ks, vcdStr(v, "addr"))
 	with, without := 0, 0
 	for _, n := range g.Nodes {
 		if len(n.Signature) > 0 {
@@ -396,7 +455,7 @@ func TestVerifCodec(t *testing.T) {
 				n := vcdInt(v, "n")
 				bad := map[string]int{"thr_zero": 0, "thr_low": vcdMinT(n) - 1, "thr_high": n + 1, "scheme_unknown": vcdMinT(n)}[vcdStr(v, "kind")]
 				g := &key.Group{Threshold: vcdMinT(n), Period: vcdPeriod, CatchupPeriod: vcdCatchup, Scheme: sch, ID: "a",
-					Nodes: vcdNodes(sch, n, true), GenesisTime: vcdGenesis, GenesisSeed: vhsSeed("S")}
+					Nodes: vcdNodes(sch, n, true, "host"), GenesisTime: vcdGenesis, GenesisSeed: vhsSeed("S")}
 				if vcdInt(v, "dist") == 1 {
 					k := bad
 					if k < 1 {
@@ -431,7 +490,7 @@ func TestVerifCodec(t *testing.T) {
 				label := "pair"
 				h := vhsSeed("pair-scalar")
 				sc := sch.KeyGroup.Scalar().SetBytes(h)
-				orig := &key.Pair{Key: sc, Public: &key.Identity{Key: sch.KeyGroup.Point().Mul(sc, nil), Addr: "pair.verif.test:4444",
+				orig := &key.Pair{Key: sc, Public: &key.Identity{Key: sch.KeyGroup.Point().Mul(sc, nil), Addr: vcdAddr(vcdStr(v, "addr"), 101),
 					Signature: vcdSig(vcdInt(v, "sig") == 1, label), Scheme: sch}}
 				p2 := new(key.Pair)
 				if path == "toml" { // only the private part travels on this path
@@ -449,7 +508,7 @@ func TestVerifCodec(t *testing.T) {
 						fail(err)
 						break
 					}
-					ev["p"] = map[string]any{"type": "pair", "sig": v["sig"]}
+					ev["p"] = map[string]any{"type": "pair", "sig": v["sig"], "addr": v["addr"]}
 				} else {
 					if hasOver {
 						osc := sch.KeyGroup.Scalar().SetBytes(vhsSeed("other-pair-scalar"))
@@ -473,7 +532,7 @@ func TestVerifCodec(t *testing.T) {
 					if len(p2.Public.Signature) > 0 {
 						s = 1
 					}
-					ev["p"] = map[string]any{"type": "pair", "sig": s}
+					ev["p"] = map[string]any{"type": "pair", "sig": s, "addr": vcdAddrKindOf([]string{p2.Public.Addr}, []int{101}, "")}
 					diff.add(p2.Public.Key != nil && p2.Public.Key.Equal(orig.Public.Key), "public.key")
 					diff.add(p2.Public.Addr == orig.Public.Addr, "public.addr")
 					diff.add(bytes.Equal(p2.Public.Signature, orig.Public.Signature), "public.signature")
@@ -481,7 +540,7 @@ func TestVerifCodec(t *testing.T) {
 				diff.add(p2.Key != nil && p2.Key.Equal(orig.Key), "key")
 				diff.add(p2.Public != nil && p2.Public.Scheme != nil && p2.Public.Scheme.Name == sch.Name, "scheme")
 			case "identity":
-				orig := &key.Identity{Key: vhsPoint(sch, "identity"), Addr: "id.verif.test:4444", Signature: vcdSig(vcdInt(v, "sig") == 1, "id"), Scheme: sch}
+				orig := &key.Identity{Key: vhsPoint(sch, "identity"), Addr: vcdAddr(vcdStr(v, "addr"), 102), Signature: vcdSig(vcdInt(v, "sig") == 1, "id"), Scheme: sch}
 				var i2 *key.Identity
 				if path == "toml" {
 					var buf bytes.Buffer
@@ -515,7 +574,7 @@ func TestVerifCodec(t *testing.T) {
 				if len(i2.Signature) > 0 {
 					s = 1
 				}
-				ev["p"] = map[string]any{"type": "identity", "sig": s}
+				ev["p"] = map[string]any{"type": "identity", "sig": s, "addr": vcdAddrKindOf([]string{i2.Addr}, []int{102}, "")}
 				diff.add(i2.Key != nil && i2.Key.Equal(orig.Key), "key")
 				diff.add(i2.Addr == orig.Addr, "addr")
 				diff.add(bytes.Equal(i2.Signature, orig.Signature), "signature")
